@@ -18,10 +18,14 @@ type World struct {
 	Counts map[string]int   // body executions per function id
 	Yield  bool             // bodies are scheduling points (E4)
 	Tag    func() string    // optional per-invocation tag appended to the function id in the log
+	// Memo marks function ids whose *body* memoizes its first result (the reference
+	// model of FuncOnce: an ordinary function that runs its computation once).
+	Memo      map[string]bool
+	memoCache map[string][]reflect.Value
 }
 
 func NewWorld() *World {
-	return &World{Log: &Log{}, Funcs: map[string]*am.Func{}, Errs: map[string]error{}, Counts: map[string]int{}}
+	return &World{Log: &Log{}, Funcs: map[string]*am.Func{}, Errs: map[string]error{}, Counts: map[string]int{}, Memo: map[string]bool{}}
 }
 
 func structOf(ls []Label) reflect.Type {
@@ -162,6 +166,11 @@ func (w *World) rawFunc(spec FuncSpec) interface{} {
 		if w.Yield {
 			verifrt.Yield("body:" + spec.ID)
 		}
+		if w.Memo[spec.ID] {
+			if c, ok := w.memoCache[spec.ID]; ok {
+				return c
+			}
+		}
 		var terms []string
 		for i := range spec.In {
 			var v reflect.Value
@@ -208,6 +217,12 @@ func (w *World) rawFunc(spec FuncSpec) interface{} {
 		}
 		if w.Yield {
 			verifrt.Yield("ret:" + spec.ID)
+		}
+		if w.Memo[spec.ID] {
+			if w.memoCache == nil {
+				w.memoCache = map[string][]reflect.Value{}
+			}
+			w.memoCache[spec.ID] = res
 		}
 		return res
 	})
